@@ -389,6 +389,12 @@ theorem solve_rel (hbeq : ((0 : α) == 0) = true) {Bw Bs : KktSolver α → KktS
     rw [runSolve_data eL]; exact hsol
   refine RelM.bind (finish_rel st hF hsol') ?_
   rintro ⟨S1, sol1⟩ ⟨S1', sol1'⟩ ⟨g1, g2, g3, g4, g5, g6, g7⟩
-  exact ⟨g1, hF.traj, g2, g3, g4, g5, g6, g7⟩
+  -- the norm caches `Info.update` filled: the same `get_normq` / `get_normb` on the same data
+  show RelM SolveObs (fillNorms S1.data >>= fun data => _) (fillNorms S1'.data >>= fun data => _)
+  have g2' : S1'.data = S1.data := g2.symm
+  rw [g2']
+  cases hfn : fillNorms S1.data with
+  | error e => exact rfl
+  | ok d => exact ⟨g1, hF.traj, rfl, g3, g4, g5, g6, g7⟩
 
 end Clarabel.Solver
